@@ -406,8 +406,9 @@ def _column_count(ctx):
         r6_field_table(ctx)
 from .c18 import r5_missing_shortcut as _missing_shortcut   # a junk value in an optional numeric column reaches the parser
 
-from ..through_time import make_rule as _mk_tt
+from ..through_time import make_rule as _mk_tt, make_t2 as _mk_t2
 _through_time = _mk_tt("C15")
+_small_edits = _mk_t2("C15")
 
 RULES = [
     ("C15-R1", r1_offset_exactly_once),
@@ -418,4 +419,5 @@ RULES = [
     ("C15-R6", _missing_shortcut),
     ("C15-R7", r7_start_lines_and_plain_reports),
     ("C15-T1", _through_time),
+    ("C15-T2", _small_edits),
 ]
